@@ -15,6 +15,17 @@ CHECKS = {
    technique='TLA+/PlusCal protocol specs checked by TLC + edge-complete replay into the real locks + TLC trace validation against RWLockAbs',
    design='4 (C08)'),
 }
+CHECKS['C04'] = dict(
+   text='TLC model-checks CtxTree (bind_to_impl vs cancel_group_execution/disseminator at access granularity, the two mutexes kept distinct as '
+        'in the code) and its x86-TSO variant CtxTreeTSO (store buffer on the binder) for contexts G<-{P,S}, C being bound under P, 1-2 cancellers on '
+        'G/P, several propagator walk orders; the constants FIXPM/HINTSC are facts probed from the running code (does the propagator take the '
+        'propagation mutex; memory order of the hint store). Every edge of every state graph is replayed on real task_group_context objects and '
+        'thread_data context lists under a cooperative scheduler (TSO scenarios under an emulated FIFO store buffer), all tracked fields compared '
+        'after each step (zero drift on the current tree); the Ctx/Bound/CancelRet/Final histories of all replayed and of seeded random executions '
+        'are validated by TLC against CtxAbs (cancelled set = closure of targets, one winner). Exhaustive for the listed scenarios.',
+   note='context tree shape and thread roles fixed by the scenarios; mutex acquisitions are atomic steps (mutex correctness is C08); store buffer emulated for the binder only; binder threads stay alive until quiescence (thread exit orphans a context list by design)',
+   technique='PlusCal protocol spec (SC + TSO) checked by TLC, edge-complete replay into real code incl. store-buffer emulation, TLC trace validation against CtxAbs',
+   design='4 (C04), 6.1, 6.2')
 REASON_PENDING = 'check not built yet in this round (planned in DESIGN.md section 4); no verdict is claimed'
 m = {
  'version': 1,
